@@ -461,3 +461,342 @@ def _difference(want, have):
 
 def _show_params(params):
     return {k: canon_value(v) for k, v in sorted(params.items(), key=lambda kv: (len(kv[0]), kv[0]))}
+
+
+# ====================================================================== C35
+
+def _row_tables():
+    r = CI.Table("%s.r" % KS, ["k"], ["ck"], {"k": "int", "ck": "int", "aa": "int", "b": "int", "st": "int",
+                                             "s": "set", "l": "list", "m": "map"}, static=["st"])
+    rc = CI.Table("%s.rc" % KS, ["k"], ["ck"], {"k": "int", "ck": "int", "n": "counter"})
+    return r, rc
+
+
+class Outcome(object):
+    """What happened when an operation was run on the real mapper."""
+
+    def __init__(self):
+        self.refused = False         # LWTException
+        self.invalid = None          # the interpreter answered InvalidRequest
+        self.raised = None           # anything else
+
+    def __repr__(self):
+        return "Outcome(refused=%s, invalid=%r, raised=%r)" % (self.refused, self.invalid, self.raised)
+
+
+class RowHarness(Env):
+    """Model R / RC of MapperRow.tla on the real mapper; the CQL it emits is executed by cql_interp.Interp."""
+
+    FIELDS = ("a", "b", "st", "s", "l", "m")
+
+    def __init__(self, mode):
+        super(RowHarness, self).__init__()
+        self.mode = mode
+        c = self.columns
+        self.R = self.model("R", "r", {
+            "k": c.Integer(partition_key=True), "ck": c.Integer(primary_key=True),
+            "a": c.Integer(db_field="aa"), "b": c.Integer(), "st": c.Integer(static=True),
+            "s": c.Set(c.Integer), "l": c.List(c.Integer), "m": c.Map(c.Integer, c.Integer)})
+        self.RC = self.model("RC", "rc", {
+            "k": c.Integer(partition_key=True), "ck": c.Integer(primary_key=True), "n": c.Counter()})
+        self.tr, self.trc = _row_tables()
+        self.interp = CI.Interp([self.tr, self.trc])
+        self.session.handler = self.interp.execute
+        self.inst = None
+        self.ops_run = 0
+
+    def reset(self):
+        self.interp.clear()
+        self.session.executed = []
+        self.inst = None
+
+    # ---- spec values <-> Python values
+
+    @staticmethod
+    def py_field(f, x, none=False):
+        """Spec value of field f (0 / {} / <<>> / <<0,0>> = null) -> what the application passes."""
+        if f in ("a", "b", "st"):
+            return None if x == 0 else x
+        if f == "s":
+            return None if none else set(x)
+        if f == "l":
+            return None if none else list(x)
+        if f == "m":
+            return None if none else {i + 1: v for i, v in enumerate(x) if v != 0}
+        raise KeyError(f)
+
+    @staticmethod
+    def spec_field(f, v):
+        """A Python attribute / cell value -> the spec's representation."""
+        if f in ("a", "b", "st"):
+            return 0 if v is None else v
+        if f == "s":
+            return frozenset(v or ())
+        if f == "l":
+            return tuple(v or ())
+        if f == "m":
+            d = dict(v or {})
+            extra = set(d) - {1, 2}
+            if extra:
+                return ("foreign-keys", tuple(sorted(d.items())))
+            return (d.get(1, 0) or 0, d.get(2, 0) or 0)
+        raise KeyError(f)
+
+    # ---- operations
+
+    def _kwargs(self, sets):
+        kw = {}
+        for k in sets:
+            name, x = k["kw"], k["x"]
+            if k["none"]:
+                kw[name] = None
+            elif name in ("a", "b", "st"):
+                kw[name] = x
+            elif name in ("s", "s__add", "s__remove", "m__remove"):
+                kw[name] = set(x)
+            elif name in ("l", "l__append", "l__prepend"):
+                kw[name] = list(x)
+            elif name in ("m", "m__update"):
+                kw[name] = {i + 1: v for i, v in enumerate(x) if v != 0}
+            else:
+                raise tlc.MachineryError("unknown update keyword %s" % name)
+        return kw
+
+    def _mutate(self, inst, mu):
+        f, op, x = mu["f"], mu["op"], mu["x"]
+        if op == "set":
+            setattr(inst, f, self.py_field(f, x))
+        elif op == "none":
+            setattr(inst, f, None)
+        else:
+            if getattr(inst, f) is None:          # the application set the collection to None before
+                setattr(inst, f, {"s": set(), "l": [], "m": {}}[f])
+            cur = getattr(inst, f)
+            if op == "add":
+                cur.add(x)
+            elif op == "discard":
+                cur.remove(x)
+            elif op == "append":
+                cur.append(x)
+            elif op == "prepend":
+                cur.insert(0, x)
+            elif op == "poplast":
+                cur.pop()
+            elif op == "put":
+                cur[x[0]] = x[1]
+            elif op == "delkey":
+                del cur[x]
+            else:
+                raise tlc.MachineryError("unknown mutation %s" % op)
+
+    def _run(self, op, batch=None):
+        name = op["name"]
+        R = self.R
+        if name == "create":
+            qs = R.objects
+            if batch is not None:
+                qs = qs.batch(batch)
+            if op["lwt"]:
+                qs = qs.if_not_exists()
+            vals = {f: self.py_field(f, op["vals"][f]) for f in self.FIELDS if f in op["has"]}
+            self.inst = qs.create(k=1, ck=op["ck"], **vals)
+        elif name == "load":
+            try:
+                self.inst = R.objects(k=1, ck=op["ck"]).get()
+            except R.DoesNotExist:
+                pass
+        elif name == "isave":
+            inst = self.inst
+            for mu in op["muts"]:
+                self._mutate(inst, mu)
+            if batch is not None:
+                inst.batch(batch)
+            try:
+                if op["how"] == "save":
+                    inst.save()
+                else:
+                    inst.update()
+            finally:
+                if batch is not None:
+                    inst.batch(None)
+        elif name == "isaveas":
+            self.inst.ck = 3 - self.inst.ck
+            self.inst.save()
+        elif name == "idelete":
+            inst, self.inst = self.inst, None
+            inst.delete()
+        elif name == "qsupdate":
+            qs = R.objects(k=1) if op["ck"] == 0 else R.objects(k=1, ck=op["ck"])
+            if batch is not None:
+                qs = qs.batch(batch)
+            if op["lwt"] == "ifexists":
+                qs = qs.if_exists()
+            elif op["lwt"] == "iff_a1":
+                qs = qs.iff(a=1)
+            qs.update(**self._kwargs(op["sets"]))
+        elif name == "qsdelete":
+            qs = R.objects(k=1) if op["ck"] == 0 else R.objects(k=1, ck=op["ck"])
+            if batch is not None:
+                qs = qs.batch(batch)
+            if op["lwt"] == "ifexists":
+                qs = qs.if_exists()
+            qs.delete()
+        elif name == "batch":
+            try:
+                with self.query.BatchQuery(connection=self.CONN) as b:
+                    for m in op["members"]:
+                        self._run(m, b)
+            finally:
+                # an instance made by create() inside the batch keeps pointing at it; the application detaches it
+                # (instance.batch(None)), otherwise later saves would be queued on the finished batch
+                if self.inst is not None:
+                    self.inst.batch(None)
+        # ---- counter model
+        elif name == "cqs":
+            self.RC.objects(k=1, ck=1).update(n=op["d"])
+        elif name == "cbatch":
+            with self.query.BatchQuery(batch_type=self.query.BatchType.Counter, connection=self.CONN) as b:
+                for d in op["ds"]:
+                    self.RC.objects(k=1, ck=1).batch(b).update(n=d)
+        elif name == "ccreate":
+            self.inst = self.RC.create(k=1, ck=1, n=op["d"]) if op["d"] else self.RC.create(k=1, ck=1)
+        elif name == "cload":
+            try:
+                self.inst = self.RC.objects(k=1, ck=1).get()
+            except self.RC.DoesNotExist:
+                pass
+        elif name == "cisave":
+            self.inst.n += op["d"]
+            if op["how"] == "save":
+                self.inst.save()
+            else:
+                self.inst.update()
+        elif name == "cidelete":
+            inst, self.inst = self.inst, None
+            inst.delete()
+        elif name == "cqsdelete":
+            self.RC.objects(k=1, ck=1).delete()
+        else:
+            raise tlc.MachineryError("unknown operation %s" % name)
+
+    def apply(self, op):
+        out = Outcome()
+        self.ops_run += 1
+        self.session.executed = []
+        try:
+            with warnings.catch_warnings():
+                warnings.simplefilter("ignore")
+                self._run(op)
+        except tlc.MachineryError:
+            raise
+        except self.query.LWTException:
+            out.refused = True
+        except CI.CqlInvalid as ex:
+            out.invalid = str(ex)
+        except Exception as ex:          # noqa: a mutated mapper may raise anything
+            out.raised = "%s: %s" % (type(ex).__name__, str(ex)[:200])
+        return out
+
+    # ---- projection
+
+    def project(self):
+        """The interpreter's table and the instance in the shape of a MapperRow state (plain Python)."""
+        if self.mode == "counter":
+            snap = self.trc.snapshot()
+            row = snap.get((1,), {"rows": {}})["rows"].get((1,))
+            foreign = [k for k in snap if k != (1,)] + [k for k in snap.get((1,), {"rows": {}})["rows"] if k != (1,)]
+            db = {"live": row is not None and "n" in row, "v": (row or {}).get("n", 0) or 0}
+            if foreign:
+                db["foreign"] = repr(foreign)
+            inst = {"has": self.inst is not None, "n": 0}
+            if self.inst is not None:
+                inst["n"] = self.inst.n
+            return {"db": db, "inst": inst}
+        snap = self.tr.snapshot()
+        part = snap.get((1,), {"static": {}, "rows": {}})
+        rows = []
+        for ck in (1, 2):
+            r = part["rows"].get((ck,), {"marker": False})
+            row = {"mk": bool(r.get("marker")), "a": self.spec_field("a", r.get("aa")), "b": self.spec_field("b", r.get("b"))}
+            for f in ("s", "l", "m"):
+                row[f] = self.spec_field(f, r.get(f))
+            rows.append(row)
+        db = {"st": self.spec_field("st", part["static"].get("st")), "rows": rows}
+        foreign = [k for k in snap if k != (1,)] + [k for k in part["rows"] if k not in ((1,), (2,))]
+        if foreign:
+            db["foreign"] = repr(foreign)
+        inst = {"has": self.inst is not None, "ck": 0, "cur": {f: self.spec_field(f, None) for f in self.FIELDS}}
+        if self.inst is not None:
+            inst["ck"] = self.inst.ck
+            inst["cur"] = {f: self.spec_field(f, getattr(self.inst, f)) for f in self.FIELDS}
+        return {"db": db, "inst": inst}
+
+    @staticmethod
+    def spec_projection(mode, node):
+        """The same shape from a spec state."""
+        if mode == "counter":
+            return {"db": {"live": node["db"]["live"], "v": node["db"]["v"]},
+                    "inst": {"has": node["inst"]["has"], "n": node["inst"]["n"]}}
+        rows = []
+        for r in node["db"]["rows"]:
+            rows.append({"mk": r["mk"], "a": r["a"], "b": r["b"], "s": frozenset(r["s"]), "l": tuple(r["l"]), "m": tuple(r["m"])})
+        cur = node["inst"]["cur"]
+        return {"db": {"st": node["db"]["st"], "rows": rows},
+                "inst": {"has": node["inst"]["has"], "ck": node["inst"]["ck"],
+                         "cur": {"a": cur["a"], "b": cur["b"], "st": cur["st"], "s": frozenset(cur["s"]),
+                                 "l": tuple(cur["l"]), "m": tuple(cur["m"])}}}
+
+    @staticmethod
+    def in_sync(mode, spec):
+        """InSync / CInSync of MapperRow.tla on a projected spec state."""
+        inst, db = spec["inst"], spec["db"]
+        if not inst["has"]:
+            return False
+        if mode == "counter":
+            return db["live"] and inst["n"] == db["v"]
+        r = db["rows"][inst["ck"] - 1]
+        visible = r["mk"] or r["a"] or r["b"] or r["s"] or r["l"] or any(r["m"])
+        view = {"a": r["a"], "b": r["b"], "st": db["st"], "s": r["s"], "l": r["l"], "m": r["m"]}
+        return bool(visible) and view == inst["cur"]
+
+    def readback(self):
+        """Read the instance's row again through the query set; -> None | description of the difference."""
+        if self.inst is None:
+            return None
+        try:
+            if self.mode == "counter":
+                fresh = self.RC.objects(k=1, ck=1).get()
+                if fresh.n != self.inst.n:
+                    return "n: row %r, instance %r" % (fresh.n, self.inst.n)
+                return None
+            fresh = self.R.objects(k=1, ck=self.inst.ck).get()
+        except self.models.Model.DoesNotExist:
+            return "the row does not exist"
+        except Exception as ex:          # noqa
+            return "reading raised %s: %s" % (type(ex).__name__, ex)
+        diffs = []
+        for f in self.FIELDS:
+            a, b = self.spec_field(f, getattr(fresh, f)), self.spec_field(f, getattr(self.inst, f))
+            if a != b:
+                diffs.append("%s: row %r, instance %r" % (f, getattr(fresh, f), getattr(self.inst, f)))
+        return "; ".join(diffs) or None
+
+    def statements(self):
+        return [(" ".join(t.split()), _show_params(p or {})) for t, p in self.session.executed]
+
+
+def diff_projection(spec, code, prefix=""):
+    """Paths at which two projections differ."""
+    out = []
+    if isinstance(spec, dict) and isinstance(code, dict):
+        for k in sorted(set(spec) | set(code)):
+            if k not in spec or k not in code:
+                out.append(prefix + k)
+            else:
+                out += diff_projection(spec[k], code[k], prefix + k + ".")
+    elif isinstance(spec, list) and isinstance(code, list) and len(spec) == len(code):
+        for i, (a, b) in enumerate(zip(spec, code)):
+            out += diff_projection(a, b, prefix + "%d." % (i + 1))
+    elif spec != code:
+        out.append(prefix.rstrip("."))
+    return out
